@@ -455,4 +455,198 @@ theorem C04_exit (ff : Bool) (ks : List Kind) :
     rw [text_out _ _ rfl, hT, prog_tally]
     simp [textSpec]
 
+/-! ### every `TextTestResult` below adapters (no `ThreadsafeForwardingResult`) -/
+def textAbs : LeafSt → Option (Bool × Tally × List Out)
+  | .text s => some (s.started, tallyOfTT s.tt, s.out)
+  | _ => none
+
+def textAct (c : Call) : Option (Bool × Tally × List Out) → Option (Bool × Tally × List Out) :=
+  Option.map fun p =>
+    match c with
+    | .startTestRun => (true, {}, p.2.2 ++ [.running])
+    | .stopTestRun => (p.1, p.2.1, if p.1 then p.2.2 ++ p.2.1.summary else p.2.2)
+    | c => (p.1, tallyStep p.2.1 c, p.2.2)
+
+theorem text_leaf (s : TextSt) (c : Call) : textAbs (.text (textStep s c)) = textAct c (textAbs (.text s)) := by
+  have ht := text_tally [c] s
+  simp only [List.foldl_cons, List.foldl_nil] at ht
+  cases c with
+  | startTestRun => simp [textAbs, textAct, textStep, ttStep, TT.reset, tallyOfTT, Call.logged]
+  | stopTestRun => simp [textAbs, textAct, textStep, summary_eq, ttStep, tallyOfTT, Call.logged]
+  | _ => simp only [textAbs, textAct, Option.map_some, ht]; simp [textStep]
+
+def fullCaps (caps : Caps) : Bool := caps.startRun && caps.skip && caps.xfail && caps.uxs
+
+def textAction : Action (Option (Bool × Tally × List Out)) where
+  abs := textAbs
+  act := textAct
+  neutral := by
+    intro c hc a
+    cases a with
+    | none => rfl
+    | some p => cases c <;> simp_all [Call.key, textAct, tallyStep]
+  leaf_sink := by intro f st c; rfl
+  leaf_tt := by intro st c; rfl
+  leaf_text := text_leaf
+  leaf_tbt := by intro st c; rfl
+  capsOk := fullCaps
+  capsRun := by intro caps h; simp only [fullCaps, Bool.and_eq_true] at h; exact h.1.1.1
+  degrade := by
+    intro caps h k t x a
+    simp only [fullCaps, Bool.and_eq_true] at h
+    have hk : Spec.C08.degradeKind caps k = k := by
+      cases k <;> simp [Spec.C08.degradeKind, h.1.1.2, h.1.2, h.2]
+    cases a with
+    | none => rfl
+    | some p => cases k <;> simp_all [Spec.C08.degradeCall, textAct, tallyStep]
+  tfrFree := true
+  startNeutral := by intro h; cases h
+
+mutual
+theorem okText_of_own : ∀ (s : Shape), ownLeaves s = true → s.noStream = true → s.hasTfr = false →
+    okShape textAction s = true
+  | .sink _, h, _, _ => by simp [ownLeaves] at h
+  | .tbt, h, _, _ => by simp [ownLeaves] at h
+  | .tt _, _, _, _ => rfl
+  | .text _, _, _, _ => rfl
+  | .etod c, h, hn, ht => by
+      have h' : ownLeaves c = true := by simpa [ownLeaves] using h
+      have := okText_of_own c h' (by simpa [Shape.noStream] using hn) (by simpa [Shape.hasTfr] using ht)
+      simp only [okShape, okShapeG, Bool.and_eq_true] at this ⊢
+      refine ⟨?_, this⟩
+      cases c <;> simp_all [ownLeaves, caps, textAction, fullCaps]
+  | .deco c, h, hn, ht => by
+      have := okText_of_own c (by simpa [ownLeaves] using h) (by simpa [Shape.noStream] using hn) (by simpa [Shape.hasTfr] using ht)
+      simpa [okShape, okShapeG] using this
+  | .tagger _ _ c, h, hn, ht => by
+      have := okText_of_own c (by simpa [ownLeaves] using h) (by simpa [Shape.noStream] using hn) (by simpa [Shape.hasTfr] using ht)
+      simpa [okShape, okShapeG] using this
+  | .tfr _, _, _, ht => by simp [Shape.hasTfr] at ht
+  | .multi cs, h, hn, ht => by
+      have := okText_of_ownL cs (by simpa [ownLeaves] using h) (by simpa [Shape.noStream] using hn) (by simpa [Shape.hasTfr] using ht)
+      simpa [okShape, okShapeL, okShapeG] using this
+  | .e2s _, _, hn, _ => by simp [Shape.noStream] at hn
+theorem okText_of_ownL : ∀ (ss : List Shape), ownLeavesL ss = true → Shape.noStreamL ss = true → Shape.hasTfrL ss = false →
+    okShapeL textAction ss = true
+  | [], _, _, _ => rfl
+  | s :: ss, h, hn, ht => by
+      simp only [ownLeavesL, Bool.and_eq_true] at h
+      simp only [Shape.noStreamL, Bool.and_eq_true] at hn
+      simp only [Shape.hasTfrL, Bool.or_eq_false_iff] at ht
+      have a := okText_of_own s h.1 hn.1 ht.1
+      have b := okText_of_ownL ss h.2 hn.2 ht.2
+      simp only [okShape, okShapeL, okShapeGL, Bool.and_eq_true] at a b ⊢
+      exact ⟨a, b⟩
+end
+
+theorem textAct_run : ∀ (cs : List Call) (T : Tally) (out : List Out),
+    ∃ T', cs.foldl (fun a c => textAct c a) (some (true, T, out)) = some (true, T', out ++ textSpec T cs)
+  | [], T, out => ⟨T, by simp [textSpec]⟩
+  | c :: cs, T, out => by
+      simp only [List.foldl_cons]
+      have gen : ∀ (T1 : Tally) (out1 : List Out), textAct c (some (true, T, out)) = some (true, T1, out1) →
+          out1 ++ textSpec T1 cs = out ++ textSpec T (c :: cs) →
+          ∃ T', cs.foldl (fun a c => textAct c a) (textAct c (some (true, T, out)))
+            = some (true, T', out ++ textSpec T (c :: cs)) := by
+        intro T1 out1 e1 e2
+        obtain ⟨T', h⟩ := textAct_run cs T1 out1
+        exact ⟨T', by rw [e1, h, e2]⟩
+      cases c with
+      | startTestRun => exact gen {} (out ++ [.running]) rfl (by simp [textSpec])
+      | stopTestRun => exact gen T (out ++ T.summary) rfl (by simp [textSpec])
+      | add k t a => cases k <;> exact gen _ out rfl (by simp [textSpec, tallyStep])
+      | startTest t => exact gen _ out rfl (by simp [textSpec, tallyStep])
+      | stopTest t => exact gen T out rfl (by simp [textSpec])
+      | tags n g => exact gen T out rfl (by simp [textSpec])
+      | time d => exact gen T out rfl (by simp [textSpec])
+      | stop => exact gen T out rfl (by simp [textSpec])
+      | done => exact gen T out rfl (by simp [textSpec])
+      | progress => exact gen T out rfl (by simp [textSpec])
+      | setFailfast b => exact gen T out rfl (by simp [textSpec])
+
+mutual
+theorem textAbs_init : ∀ (s : Shape), ownLeaves s = true → s.noStream = true → s.hasTfr = false →
+    ∀ a ∈ (leaves s (init s)).map textAbs, a = none ∨ a = some (false, {}, [])
+  | .sink _, h, _, _ => by simp [ownLeaves] at h
+  | .tbt, h, _, _ => by simp [ownLeaves] at h
+  | .tt _, _, _, _ => by simp [leaves, init, textAbs]
+  | .text _, _, _, _ => by simp [leaves, init, textAbs, tallyOfTT]
+  | .etod c, h, hn, ht => by
+      simp only [leaves, init]
+      exact textAbs_init c (by simpa [ownLeaves] using h) (by simpa [Shape.noStream] using hn) (by simpa [Shape.hasTfr] using ht)
+  | .deco c, h, hn, ht => by
+      simp only [leaves, init]
+      exact textAbs_init c (by simpa [ownLeaves] using h) (by simpa [Shape.noStream] using hn) (by simpa [Shape.hasTfr] using ht)
+  | .tagger _ _ c, h, hn, ht => by
+      simp only [leaves, init]
+      exact textAbs_init c (by simpa [ownLeaves] using h) (by simpa [Shape.noStream] using hn) (by simpa [Shape.hasTfr] using ht)
+  | .tfr _, _, _, ht => by simp [Shape.hasTfr] at ht
+  | .e2s _, _, hn, _ => by simp [Shape.noStream] at hn
+  | .multi cs, h, hn, ht => by
+      have ho : ownLeavesL cs = true := by simpa [ownLeaves] using h
+      have hn' : Shape.noStreamL cs = true := by simpa [Shape.noStream] using hn
+      have ht' : Shape.hasTfrL cs = false := by simpa [Shape.hasTfr] using ht
+      have hk := okText_of_ownL cs ho hn' ht'
+      simp only [leaves, init]
+      have e1 := act_restoreL textAction cs hk
+      have e2 := act_stepL textAction cs hk
+      rw [show textAction.abs = textAbs from rfl] at e1 e2
+      rw [e1, e2, e2, e2]
+      have key : ∀ (L : List (Option (Bool × Tally × List Out))) (b : Bool),
+          (∀ a ∈ L, a = none ∨ a = some (false, {}, [])) →
+          ∀ a ∈ L.map (textAction.act (.setFailfast b)), a = none ∨ a = some (false, {}, []) := by
+        intro L b hL a ha
+        obtain ⟨x, hx, rfl⟩ := List.mem_map.mp ha
+        rw [textAction.neutral (.setFailfast b) rfl]
+        exact hL x hx
+      exact key _ _ (key _ _ (key _ _ (textAbs_initL cs ho hn' ht')))
+theorem textAbs_initL : ∀ (ss : List Shape), ownLeavesL ss = true → Shape.noStreamL ss = true → Shape.hasTfrL ss = false →
+    ∀ a ∈ (leavesL ss (initL ss)).map textAbs, a = none ∨ a = some (false, {}, [])
+  | [], _, _, _ => by simp [leavesL]
+  | s :: ss, h, hn, ht => by
+      simp only [ownLeavesL, Bool.and_eq_true] at h
+      simp only [Shape.noStreamL, Bool.and_eq_true] at hn
+      simp only [Shape.hasTfrL, Bool.or_eq_false_iff] at ht
+      simp only [leavesL, initL, List.map_append, List.mem_append]
+      intro a ha
+      rcases ha with ha | ha
+      · exact textAbs_init s h.1 hn.1 ht.1 a ha
+      · exact textAbs_initL ss h.2 hn.2 ht.2 a ha
+end
+
+/-- **C04 (text summary).**  Below any stack of `ExtendedToOriginalDecorator`, `TestResultDecorator`, `Tagger`,
+`MultiTestResult`, every `TextTestResult` writes, for a history that starts with `startTestRun`, exactly
+`Spec.C04.textSpec`: the banner at each `startTestRun`; at each `stopTestRun` one section per error, failure and
+unexpected success since the `startTestRun`, `Ran n` with `n` the tests started since then, and `OK` iff there is
+no section, else `FAILED (failures=k)` with `k` their number. -/
+theorem C04_text_summary_partial (s : Shape) (ho : ownLeaves s = true) (hn : s.noStream = true)
+    (ht : s.hasTfr = false) (h : List Call) :
+    ∀ out ∈ (leaves s (run s (init s) (.startTestRun :: h))).filterMap LeafSt.textOut,
+      out = textSpec {} (.startTestRun :: h) := by
+  intro out hout
+  obtain ⟨l, hl, hlo⟩ := List.mem_filterMap.mp hout
+  have hsteps := act_steps textAction s (okText_of_own s ho hn ht) (.startTestRun :: h) (init s)
+  simp only [leavesAbs] at hsteps
+  have hm : textAbs l ∈ (leaves s (run s (init s) (.startTestRun :: h))).map textAbs := List.mem_map_of_mem hl
+  rw [show textAction.abs = textAbs from rfl, show textAction.act = textAct from rfl] at hsteps
+  rw [run, hsteps] at hm
+  obtain ⟨a, ha, hal⟩ := List.mem_map.mp hm
+  cases l with
+  | text st =>
+    simp only [LeafSt.textOut, Option.some.injEq] at hlo
+    rcases textAbs_init s ho hn ht a ha with rfl | rfl
+    · simp [textAbs] at hal
+      have : ∀ cs : List Call, cs.foldl (fun a c => textAct c a) none = none := by
+        intro cs; induction cs with
+        | nil => rfl
+        | cons c cs ih => simpa [textAct] using ih
+      rw [show textAct Call.startTestRun none = none from rfl, this] at hal; cases hal
+    · simp only [List.foldl_cons] at hal
+      obtain ⟨T', hT⟩ := textAct_run h {} [.running]
+      rw [show textAct .startTestRun (some (false, {}, [])) = some (true, {}, [.running]) from rfl, hT] at hal
+      simp only [textAbs, Option.some.injEq, Prod.mk.injEq] at hal
+      rw [← hlo, ← hal.2.2]
+      simp [textSpec]
+  | _ => simp [LeafSt.textOut] at hlo
+
 end TTV.Props.C04
